@@ -34,9 +34,19 @@ pub fn bad_bodies(cf: Cf, id: SeqId) -> Vec<Vec<u8>> {
             vec![0x04, 0x0f, 0x03, 0x06, 0x05, 0x4c],
             vec![0x04, 0x0f, 0x02, 0x87, 0x01],
             vec![0x04, 0x0f, 0x04, 0x27, 0x00, 0x27, 0x00],
+            // BER length prefixes cut off at the end of the packet
+            vec![0x04, 0x0f, 0x02, 0x06, 0x81],
+            vec![0x04, 0x0f, 0x02, 0x06, 0x82],
+            vec![0x04, 0x0f, 0x03, 0x06, 0x82, 0x00],
+            vec![0x04, 0x0f, 0x04, 0x06, 0x02, 0x4c, 0x81],
         ],
         seqs::CF_PRINT_LINE => vec![vec![0x06, 0xd1, 0x00]],
-        seqs::CF_PRINT_BLOCK => vec![vec![0x06, 0xd3, 0x03, 0x06, 0x05, 0x1f]],
+        seqs::CF_PRINT_BLOCK => vec![
+            vec![0x06, 0xd3, 0x03, 0x06, 0x05, 0x1f],
+            vec![0x06, 0xd3, 0x02, 0x06, 0x81],
+            vec![0x06, 0xd3, 0x04, 0x06, 0x02, 0x25, 0x82],
+        ],
+        seqs::CF_REQUEST_DATA => vec![vec![0x04, 0x0c, 0x02, 0x06, 0x81], vec![0x04, 0x0c, 0x03, 0x06, 0x82, 0x01]],
         seqs::CF_SET_TIME => vec![
             vec![0x04, 0x01, 0x00],
             vec![0x04, 0x01, 0x04, 0xaa, 0x23, 0x01, 0x01],
@@ -48,6 +58,14 @@ pub fn bad_bodies(cf: Cf, id: SeqId) -> Vec<Vec<u8>> {
         seqs::CF_ABORT => vec![vec![0x06, 0x1e, 0x00]],
         _ => vec![],
     }
+}
+
+/// Is this bad body malformed by the wire format itself - a mandatory positional byte missing, a
+/// fixed-width field or a length prefix cut off, a container announcing more than there is - so
+/// that the reference codec, not the library under test, has the last word on it? (The others -
+/// a duplicated tag, an empty set-time packet - are left to the library's own parser.)
+pub fn structurally_malformed(frame: &[u8]) -> bool {
+    !matches!(frame, [0x04, 0x0f, 0x04, 0x27, 0x00, 0x27, 0x00] | [0x04, 0x01, ..])
 }
 
 /// Control fields near the alphabet, of other replies, and a fixed PRNG sample.
@@ -144,7 +162,13 @@ pub fn apply(base: &ExPlan, case: &FaultCase) -> ExPlan {
         }
         FaultCase::ForeignCf { pos, cf, body } => {
             let f = foreign_body(*cf, *body, p.seq);
-            p.replies.insert((*pos as usize).min(p.replies.len()), f);
+            let at = (*pos as usize).min(p.replies.len());
+            for m in p.malformed_replies.iter_mut() {
+                if *m as usize >= at {
+                    *m += 1;
+                }
+            }
+            p.replies.insert(at, f);
             p.fault = "foreign_cf".into();
         }
         FaultCase::BadBody { pos, which } => {
@@ -154,7 +178,16 @@ pub fn apply(base: &ExPlan, case: &FaultCase) -> ExPlan {
                 cands.extend(bad_bodies(cf, p.seq));
             }
             let f = cands[*which as usize % cands.len()].clone();
-            p.replies.insert((*pos as usize).min(p.replies.len()), f);
+            let at = (*pos as usize).min(p.replies.len());
+            for m in p.malformed_replies.iter_mut() {
+                if *m as usize >= at {
+                    *m += 1;
+                }
+            }
+            if structurally_malformed(&f) {
+                p.malformed_replies.push(at as u32);
+            }
+            p.replies.insert(at, f);
             p.fault = "bad_body".into();
         }
         FaultCase::Cut { at, kind } => {
